@@ -276,6 +276,9 @@ theorem value_stable {s : State} (hw : WF s) {l : Nat} (hl : l < s.nLayers) (op 
   | grab hd l' =>
     simp only [step]; unfold grab
     split <;> rfl
+  | grabMask hd =>
+    simp only [step]; unfold grabMask
+    split <;> rfl
   | hget hd c' => rfl
   | hset hd c' v =>
     simp only [step]; unfold hset
@@ -421,6 +424,7 @@ theorem nLayers_step (s : State) (op : Op) : s.nLayers ≤ (step s op).1.nLayers
       · exact Nat.le_refl _
       · split <;> simp
   | grab hd l => simp only [step]; unfold grab; split <;> exact Nat.le_refl _
+  | grabMask hd => simp only [step]; unfold grabMask; split <;> exact Nat.le_refl _
   | hget hd c => exact Nat.le_refl _
   | hset hd c v => exact Nat.le_of_eq (sameShape_hset ..).nLayers.symm
   | hdump hd => exact Nat.le_refl _
@@ -535,6 +539,7 @@ theorem shapes_run (t : State) (os : List Op) : (run t os).1.dims = t.dims ∧
             · exact ⟨rfl, fun _ _ => rfl⟩
             · exact ⟨rfl, fun k hk => by simp [upd, Nat.ne_of_lt hk]⟩
       | grab hd l => simp only [step]; unfold grab; split <;> exact ⟨rfl, fun _ _ => rfl⟩
+      | grabMask hd => simp only [step]; unfold grabMask; split <;> exact ⟨rfl, fun _ _ => rfl⟩
       | hget hd c => exact ⟨rfl, fun _ _ => rfl⟩
       | hset hd c v => exact ⟨(sameShape_hset ..).dims, fun k _ => congrArg (fun f => (f k).dims) (sameShape_hset ..).layers⟩
       | hdump hd => exact ⟨rfl, fun _ _ => rfl⟩
@@ -663,6 +668,7 @@ theorem step_gattrs (s : State) (op : Op) :
     | (unfold modifyCell; repeat' split) <;> rfl
     | (unfold modifyCellU; repeat' split) <;> first | rfl | exact modifyCell_gattrs ..
     | (unfold grab; repeat' split) <;> rfl
+    | (unfold grabMask; repeat' split) <;> rfl
     | (unfold fromData; repeat' split) <;> rfl
     | (unfold hset; repeat' split) <;> rfl
     | (unfold nbhdMask; repeat' split) <;> rfl
